@@ -98,6 +98,83 @@ pub fn one(req: &Value) -> Value {
         interp.prepare(program, Some(ModulePath::new(path.to_string())))
     };
     trace.push(drive(&mut interp, Some(first), 5_000_000));
+    if let Some(auto) = req.get("auto") {
+        // automatic host: answers every order with twice its numeric payload, following a schedule policy
+        let lifo = auto.get("order").and_then(|v| v.as_str()) == Some("lifo");
+        let random = auto.get("order").and_then(|v| v.as_str()) == Some("rand");
+        let mut prng = auto.get("seed").and_then(|v| v.as_u64()).unwrap_or(1) | 1;
+        let batch = auto.get("batch").and_then(|v| v.as_u64()).unwrap_or(1000) as usize;
+        let extra = auto.get("extra_steps").and_then(|v| v.as_u64()).unwrap_or(0);
+        let collect = auto.get("collect").and_then(|v| v.as_bool()).unwrap_or(false);
+        let mut outstanding: Vec<(u64, Value)> = Vec::new();
+        let mut idle = 0;
+        for _round in 0..2000 {
+            let last = trace.last().cloned().unwrap_or(json!({}));
+            match last.get("r").and_then(|v| v.as_str()) {
+                Some("suspended") => {
+                    if let Some(p) = last.get("pending").and_then(|v| v.as_array()) {
+                        for it in p {
+                            outstanding.push((it.get(0).and_then(|v| v.as_u64()).unwrap_or(0), it.get(1).cloned().unwrap_or(Value::Null)));
+                        }
+                    }
+                    let mut ended = false;
+                    for _ in 0..extra {
+                        let o = drive(&mut interp, None, 5_000_000);
+                        if o.get("r").and_then(|v| v.as_str()) != Some("suspended") {
+                            trace.push(o);
+                            ended = true;
+                            break;
+                        }
+                        // a spurious step may have resumed an order answered early and issued new ones
+                        if let Some(p) = o.get("pending").and_then(|v| v.as_array()) {
+                            for it in p {
+                                outstanding.push((it.get(0).and_then(|v| v.as_u64()).unwrap_or(0), it.get(1).cloned().unwrap_or(Value::Null)));
+                            }
+                        }
+                    }
+                    if ended {
+                        break;
+                    }
+                    if collect {
+                        interp.collect();
+                    }
+                    if outstanding.is_empty() {
+                        // an order answered before it was awaited: the response is already there, a further step picks it up
+                        let o = drive(&mut interp, None, 5_000_000);
+                        let again = o.get("r").and_then(|v| v.as_str()) == Some("suspended")
+                            && o.get("pending").and_then(|v| v.as_array()).map(|a| a.is_empty()).unwrap_or(true);
+                        idle = if again { idle + 1 } else { 0 };
+                        if idle > 64 {
+                            trace.push(json!({"r": "stuck"}));
+                            break;
+                        }
+                        trace.push(o);
+                        continue;
+                    }
+                    let mut resp = Vec::new();
+                    for _ in 0..batch.min(outstanding.len()) {
+                        let (id, payload) = if random {
+                            prng = prng.wrapping_mul(6364136223846793005).wrapping_add(1442695040888963407);
+                            outstanding.remove(((prng >> 33) as usize) % outstanding.len())
+                        } else if lifo {
+                            outstanding.pop().unwrap_or((0, Value::Null))
+                        } else {
+                            outstanding.remove(0)
+                        };
+                        let answer = match payload.as_f64() {
+                            Some(x) => json!(x * 2.0),
+                            None => payload.clone(),
+                        };
+                        let v = api::create_from_json(&mut interp, &guard, &answer).unwrap_or(tsrun::JsValue::Undefined);
+                        resp.push(OrderResponse { id: OrderId(id), result: Ok(RuntimeValue::unguarded(v)) });
+                    }
+                    interp.fulfill_orders(resp);
+                    trace.push(drive(&mut interp, None, 5_000_000));
+                }
+                _ => break,
+            }
+        }
+    }
     if let Some(actions) = req.get("host").and_then(|v| v.as_array()) {
         for a in actions {
             if a.get("step").is_some() {
